@@ -230,9 +230,12 @@ class Mon:
             self.rec.nt((self.case.get("idx") if self.case else None, sorted(sh.kinds), sh.n, tuple(before.shape), axis, str(before.dtype), norm_var, bool(kw["in_place"])))
 
 
-def _dataset(rng):
+def _dataset(rng, big=False):
     F = int(rng.integers(1, 7))
     N = int(rng.choice([2, 3, 5, 12, 40, int(rng.integers(6, 200))]))
+    if big:
+        # long enough for accumulate calls of 2^k frames (block sizes of a chunked reduction) and their neighbours
+        N = int(rng.choice([1024 + 37, 2048 + 5, 4096 + 100, 512 + 256 + 3, 3000, 8192 + 1]))
     dtype = str(rng.choice(["float64", "float64", "float32", "int16", "int32"]))
     if dtype.startswith("int"):
         lim = 3000 if dtype == "int16" else 200000
@@ -286,6 +289,29 @@ def _feed(inst, data, rng, style):
             calls.append("refused")
         kind = style if style != "mixed" else str(rng.choice(["vec", "t2", "t2T", "t3", "t3mid"]))
         left = N - pos
+        if style == "blocks":
+            sizes = [k + d for k in (64, 128, 256, 512, 1024, 2048, 4096, 8192) for d in (0, 0, 1, -1) if k + d <= left]
+            k = int(rng.choice(sizes)) if sizes else left
+            kind = str(rng.choice(["t2", "t2T", "t3", "t3mid"]))
+            blk = data[pos:pos + k]
+            if kind == "t2":
+                x = np.array(blk)
+                ax = -1
+            elif kind == "t2T":
+                x = np.array(blk.T)
+                ax = 0
+            else:
+                a = int(rng.choice([d for d in (1, 2, 4) if k % d == 0]))
+                x = np.array(blk.reshape(a, k // a, F))
+                ax = 2
+                if kind == "t3mid":
+                    x = np.array(np.moveaxis(x, -1, 1))
+                    ax = 1
+            x.setflags(write=False)
+            inst.accumulate(x, axis=ax)
+            pos += k
+            calls.append("%s:block%d" % (kind, k))
+            continue
         if kind == "vec" or left == 1:
             x = np.array(data[pos]); x.setflags(write=False)
             inst.accumulate(x)
@@ -332,15 +358,19 @@ def run_case(case, rec, mon=None):
     rng = rng_for(case["seed"], "C16", case["idx"])
     with warnings.catch_warnings():
         warnings.simplefilter("ignore")
-        data = _dataset(rng)
+        big = case["idx"] % 12 == 7
+        data = _dataset(rng, big)
         N, F = data.shape
         norm_var = bool(rng.random() < 0.75)
         K = int(rng.integers(2, 5))
         styles = ["vec", "t2", "mixed", "mixed", "t2T", "t3"]
+        if big:
+            styles = ["blocks"]
+            rec.count("long_data_sets_fed_in_power_of_two_blocks")
         insts, hist = [], []
         for k in range(K):
             inst = P.Standardize(norm_var=norm_var)
-            st = styles[int(rng.integers(len(styles)))] if k else "vec"
+            st = styles[int(rng.integers(len(styles)))] if k else ("t2" if big else "vec")
             hist.append((st, _feed(inst, data, rng, st)))
             insts.append(inst)
         # a reloaded instance (npy) gets the saver's shadow
